@@ -205,6 +205,9 @@ async function execC16(mods, SPC, run) {
       if (fresh.ok) printedOk.add(op.parser);
     }
     for (const k of Object.keys(defsOf(ctx, cfg))) watch.add(k);
+    // clause 5 uses a public query method; if a refactoring removes it the clause is skipped
+    // (the other four clauses still see a stuck in-progress mark through its consequences)
+    if (typeof ctx.isDefinitionInProgress === "function")
     for (const k of watch) {
       if (ctx.isDefinitionInProgress(k)) {
         out.inProgressSeen++;
